@@ -316,6 +316,35 @@ def check_fields(r) -> list[Fail]:
     elif ok2.any() and np.max(np.abs(got2[ok2] - ref2[ok2])) > 1e-6:
         p = int(np.argmax(np.abs(got2 - ref2) * ok2))
         fails.append(Fail("aeif:value-differs-from-definition" + (":weighted" if weighted else ""), f"point {p}: {got2[p]:.6f} vs {ref2[p]:.6f}"))
+    # ---- the caller supplies the nearest-atom table (as scripts/gbca.py does) and re-uses it for a second call
+    if not fails:
+        from molli.descriptor.gridbased import nearest_atom_index
+
+        cut = r["cut"]
+        table = nearest_atom_index(grid, ens, max_dist=cut)
+        table0 = table.copy()
+        dmin = d.min(axis=1)                                                        # (nc, G)
+        near_ok = dmin <= cut
+        edge = (np.abs(dmin - cut) <= 1e-9 * max(1.0, cut)).any(axis=0)
+        val3 = np.where(inside & near_ok, np.take_along_axis(q, near, axis=1), 0.0)
+        for call, wt in enumerate((weighted, not weighted, weighted)):
+            ref3 = np.average(val3, axis=0, weights=w if wt else None)
+            try:
+                got3 = np.asarray(aeif(ens, grid, nearest_atom_idx=table, weighted=wt), dtype=float)
+            except Exception as e:
+                s = exc_sig(e)
+                if s is None:
+                    raise
+                fails.append(Fail(f"aeif-with-table-raises:{s}", repr(e)[:300]))
+                break
+            ok3 = ok2 & ~edge
+            if ok3.any() and np.max(np.abs(got3[ok3] - ref3[ok3])) > 1e-6:
+                p = int(np.argmax(np.abs(got3 - ref3) * ok3))
+                fails.append(Fail("aeif:supplied-table:value-differs-from-definition:" + ("first-call" if call == 0 else "repeated-call"), f"call {call} (cut-off {cut}): point {p}: {got3[p]:.6f} vs {ref3[p]:.6f}"))
+                break
+            if not np.array_equal(table, table0):
+                fails.append(Fail("aeif:callers-nearest-atom-table-modified", f"after call {call}: {int((table != table0).sum())} entries changed"))
+                break
     tally(labels={"grid_points": len(g64), "points_excluded_near_a_sphere_surface": int(excl.sum()), "points_inside": n_in, "points_outside": n_out})
     return fails
 
@@ -393,7 +422,7 @@ LEGS = [
     Leg("nearest_prune", check_nearest, classify_nearest, strategy=strat_desc, n={"quick": 500, "thorough": 10000}, shards={"quick": 16, "thorough": 32},
         rule="random ensembles (2-12 atoms, 1-4 conformers) and grids around them, cut-offs {0.5,1,2,3.5}, eps {0,0.1,0.5,1}; nearest_atom_index for the ensemble and for a single geometry with the cut-off passed; prune for both"),
     Leg("fields", check_fields, classify_fields, strategy=strat_desc, n={"quick": 500, "thorough": 10000}, shards={"quick": 16, "thorough": 32},
-        rule="aso and aeif (weighted / unweighted) vs. the vdW-sphere definition in float64; points within the float32 rounding band of any sphere surface, and nearest-atom ties, are excluded and counted"),
+        rule="aso and aeif (weighted / unweighted; aeif also with a caller-supplied nearest-atom table built with cut-offs {0.5,1,2,3.5} and re-used for three calls) vs. the vdW-sphere definition in float64; points within the float32 rounding band of any sphere surface, and nearest-atom ties, are excluded and counted"),
     Leg("native", check_native, lambda r: (False, ["native_campaign"]), enumerate=enum_native, shards={"quick": 2, "thorough": 8},
         rule="molli_xt/distance.cpp of the working tree compiled with clang++ -fsanitize=address,undefined,fuzzer against /verif/shim (pybind11 stand-in); each input decodes to (registered kernel name, shapes, float width, values) and the result is compared with naive loops inside the target; "
              "2 x 20 000 (quick) / 8 x 2 000 000 (thorough) executions"),
